@@ -91,6 +91,9 @@ func o2Units(thorough bool) []unit {
 			if s.rgroup != nil && (s.rgroup.Without || s.rgroup.Suffix) {
 				continue
 			}
+			if len(p.stages) >= 2 && (s.cmp != nil || (s.vecFn != "" && s.vecFn != "sum") || s.rgroup != nil) {
+				continue
+			}
 			if s.unwrap {
 				// unwrap needs extracted labels on the SQL side ("labels col not inited" otherwise)
 				hasPV := false
@@ -354,6 +357,10 @@ func forEachCaseO2(u *unit, fn func(seq int, sc *scope, c c09lib.Case) bool) err
 		db := &dbs[di]
 		if !(strings.HasPrefix(db.name, "odd_") || db.name == "big" || di%5 == 3) {
 			continue
+		}
+		if heavy := len(u.pipe.stages) >= 3 || (u.kind == "metric" && len(u.pipe.stages) >= 2); heavy &&
+			!(db.name == "odd_array" || db.name == "odd_truncated" || db.name == "odd_empty" || db.name == "big" || di%10 == 3) {
+			continue // the longest pipelines (thorough tier only) run on a smaller family
 		}
 		dirs := []bool{false}
 		if di%2 == 1 {
